@@ -19,10 +19,11 @@ RULE = ("pack/unpack: exhaustive over all (d, r) with |r|+2 < d <= D (D=12 quick
         "has_zeros in {0,1}, random field values, x64 on and off. Packed application: random (shape rank 1..3, dims "
         "3..9, r, per-axis has_zeros, orthonormal or arbitrary V). Packed root: random PSD matrices (n 4..12, rank, "
         "spread<=1e4, scale 1e-3..1e3, padding 0..3, p 1..8, eps, relative/absolute, both signs of r); cases without "
-        "a relative spectral gap >= 1e-3 at the cut are skipped-ambiguous. Non-trivial: all (d,r) pairs / cases with a "
+        "a relative spectral gap >= 1e-3 at the cut are skipped-ambiguous. In-situ: packed roots stored by the real optimizer (compression_rank +-1, +-2; statistic "
+        "sizes 3..9 incl. d = |r|+3) against the truncated root of the statistics stored in the same state. Non-trivial: all (d,r) pairs / cases with a "
         "compressed axis; distinct by parameters")
 ASSUMPTIONS = ["float64 tolerance 1e-10 relative for application, 1e-8*kappa for roots", "spectral gap >= 1e-3 at the truncation rank"]
-DECIDING = ["pack_roundtrip", "unpack_roundtrip", "apply_checked", "root_checked", "has_zeros_identity_checked"]
+DECIDING = ["pack_roundtrip", "unpack_roundtrip", "apply_checked", "root_checked", "has_zeros_identity_checked", "insitu_roots_checked"]
 MIN_NONTRIVIAL = 60
 TIMEOUT = {"quick": 900, "thorough": 5400}
 
@@ -36,6 +37,8 @@ def shards(tier, seed):
   n = 10 if tier == "quick" else 150
   out = [{"name": "pack64", "env": {"x64": True}, "kind": "pack", "D": D, "budget_s": 800},
          {"name": "pack32", "env": {"x64": False}, "kind": "pack", "D": D, "budget_s": 800}]
+  for i in range(3):
+    out.append({"name": "insitu%d" % i, "env": {"x64": True}, "kind": "insitu", "n": n, "budget_s": 700 if tier == "quick" else 4500})
   for i in range(7):
     out.append({"name": "apply%d" % i, "env": {"x64": True}, "kind": "apply", "n": n * 2, "budget_s": 700 if tier == "quick" else 4500})
     out.append({"name": "root%d" % i, "env": {"x64": True}, "kind": "root", "n": n * 2, "budget_s": 700 if tier == "quick" else 4500})
@@ -220,6 +223,90 @@ def check_root(c, rec):
     rec.count("root_reported_error_large")
 
 
+def gen_insitu(rng):
+  dims = [4, 5, 6, 7, 8, 9, 3]
+  n = int(rng.integers(1, 4))
+  tree = {}
+  for j in range(n):
+    rk = int(rng.integers(1, 3))
+    tree["p%d" % j] = [int(rng.choice(dims)) for _ in range(rk)]
+  r = int(rng.choice([1, 2])) * int(rng.choice([1, -1]))
+  return {"fn": "insitu", "tree": tree, "r": r, "eps": float(rng.choice([1e-3, 1e-4])), "beta2": float(rng.choice([0.9, 1.0])),
+          "T": 4, "hseed": int(rng.integers(0, 2 ** 31))}
+
+
+def check_insitu(c, rec):
+  """The packed roots stored by the real optimizer (compression_rank != 0) denote the exact truncated root of the
+  statistics stored in the same state."""
+  from vmon import dsharness as H
+  from vmon.refmodels import ds_ref
+  rng = np.random.default_rng(c["hseed"])
+  tree, r = c["tree"], c["r"]
+  k = abs(r)
+  cfg = dict(block_size=16, graft_type=1, compression_rank=r, matrix_epsilon=c["eps"], relative_matrix_epsilon=True, beta2=c["beta2"],
+             merge_small_dims_block_size=1, best_effort_shape_interpretation=False, start_preconditioning_step=1, learning_rate=0.1)
+  params = {kk: np.asarray(rng.standard_normal(tuple(sh)), np.float32) for kk, sh in tree.items()}
+  try:
+    run = H.Runner(cfg, params, "jit", 1)
+  except Exception as e:  # pylint: disable=broad-except
+    kind, where = H.classify_exception(e)
+    if kind == "reject":
+      rec.skip("rejected:" + where)
+      return
+    raise
+  sizes = [d for sh in tree.values() for d in sh]
+  max_size = max(sizes)
+  checked = 0
+  for t in range(c["T"]):
+    g = {kk: np.asarray(rng.standard_normal(tuple(sh)) * 10 ** rng.uniform(-1, 1), np.float32) for kk, sh in tree.items()}
+    run.step(g)
+    v = run.view()
+    for kk, sh in tree.items():
+      pexp = 2 * len(sh)
+      pv = v["params"][kk]
+      for i, n in enumerate(sh):
+        P = pv["precs"][i]
+        S = pv["stats"][i]
+        err = float(pv["metrics"]["errors"][i])
+        if not (err == err and err < 0.1):
+          rec.count("insitu_rejected_roots")
+          continue
+        if not (k + 2 < n):
+          if P.shape != (n, n):
+            rec.violation("insitu-dense-shape", "statistic of size %d with rank %d should be stored dense, got %s" % (n, r, P.shape), c)
+            return
+          continue
+        if P.shape != (n, k + 2):
+          rec.violation("insitu-packed-shape", "statistic of size %d with rank %d should be packed [%d,%d], got %s" % (n, r, n, k + 2, P.shape), c)
+          return
+        lam_hat = R.power_iteration_replica(S, max_size, tol=1e-6)
+        d = c["eps"] * max(lam_hat, 1e-6)
+        w, U = np.linalg.eigh(S + d * np.eye(n))
+        root = np.maximum(w, d) ** (-1.0 / pexp)
+        order = np.argsort(w)
+        keep = order[::-1][:k] if r > 0 else order[:k]
+        rest = np.array([j for j in range(n) if j not in set(keep.tolist())])
+        gap = (w[keep].min() - w[rest].max()) if r > 0 else (w[rest].min() - w[keep].max())
+        if gap < 2e-2 * w.max() or (k > 1 and np.min(np.abs(np.diff(np.sort(w[keep])))) < 0):
+          rec.skip("insitu-no-spectral-gap")
+          continue
+        Uk = U[:, keep]
+        Dref = (Uk * root[keep]) @ Uk.T + root[rest].mean() * (np.eye(n) - Uk @ Uk.T)
+        den = ds_ref.dense_of_stored(P, r)
+        if den["has_zeros"]:
+          rec.violation("insitu-has-zeros", "stored packed root of an accepted statistic is flagged has_zeros (size %d rank %d)" % (n, r), c)
+          return
+        e = np.max(np.abs(den["D"] - Dref)) / np.max(np.abs(Dref))
+        rec.count("insitu_roots_checked")
+        rec.count("insitu_size_minus_rank_%d" % min(n - k, 6))
+        rec.maxi("insitu_relerr_over_1e-4", e / 1e-4)
+        checked += 1
+        if e > 1e-4:
+          rec.violation("insitu-packed-root", "step %d leaf %s axis %d: stored packed root of a %dx%d statistic (rank %d) differs from the exact truncated root by %.3g rel" % (t, kk, i, n, n, r, e), c)
+          return
+  rec.case(util.key_hash(c), checked > 0, sample=c)
+
+
 def _guard(c, rec):
   """Runs one case; an exception raised inside the repository becomes a violation whose witness is the case."""
   import traceback
@@ -228,6 +315,8 @@ def _guard(c, rec):
       check_apply(c, rec)
     elif c["fn"] == "root":
       check_root(c, rec)
+    elif c["fn"] == "insitu":
+      check_insitu(c, rec)
     else:
       check_pack(c["d"], c["r"], c["hz"], c["seed"], rec)
   except Exception as e:  # pylint: disable=broad-except
@@ -251,7 +340,7 @@ def run(spec, rec):
     if time.time() > rec.deadline:
       rec.count("dropped_for_budget", spec["n"] - i)
       break
-    c = gen_apply(rng) if kind == "apply" else gen_root(rng)
+    c = gen_apply(rng) if kind == "apply" else (gen_insitu(rng) if kind == "insitu" else gen_root(rng))
     _guard(c, rec)
 
 
